@@ -1,2 +1,58 @@
-(* props/C12.v — placeholder until the theorems of this property are added. *)
-From Prophy Require Import Bytes Schema Layout Wire PcModel.
+(* props/C12.v — whatever prophyc accepts, every back-end can realise; rule breakers are rejected.
+   model/PcValidate.v follows the legality checks of the prophy text front-end
+   (_validate_struct_members with its three loops over the members, p_union_def, p_enum_member,
+   p_union_member, p_positive_expression and what the grammar itself enforces) over prophyc's own kinds
+   (pc_kind, the model of calc_wire_stiffness). Proved: it accepts exactly the schemas the documented
+   composability rules allow ([legal]), at any nesting depth; hence every rule breaker expressible in the
+   schema AST is rejected, and for every accepted message type the back-end models are total: prophyc's
+   layout is the wire layout, the Python and the C++ encoder models produce the canonical bytes of every
+   well-typed value. Not in the AST, hence not in the theorem: names (redefinitions, undeclared types) —
+   and that the generated text imports / compiles, which checks/C12.py decides by running the artefacts. *)
+From Coq Require Import ZArith List Bool Lia.
+From Prophy Require Import Bytes Schema Layout Wire Src PyStatics PyEncode PcModel CppFull PcValidate
+  Arith SpecAlign Views PcFacts PyEncodeFacts CppEncFacts PcValidateFacts.
+Import ListNotations.
+Local Open Scope Z_scope.
+
+Theorem C12_frontend_accepts_exactly_the_legal_schemas : forall t, pc_accepts t = legal t.
+Proof. exact pc_accepts_legal. Qed.
+Print Assumptions C12_frontend_accepts_exactly_the_legal_schemas.
+
+Theorem C12_rule_breakers_rejected : forall t, legal t = false -> pc_accepts t = false.
+Proof. intros t H. rewrite pc_accepts_legal. exact H. Qed.
+Print Assumptions C12_rule_breakers_rejected.
+
+(* what is accepted is realisable (model level): one layout for prophyc, Python and C++ *)
+Theorem C12_accepted_is_realisable :
+  forall e fs v, pc_accepts (TStruct fs) = true -> wt (TStruct fs) v = true ->
+    pc_size (TStruct fs) = size (TStruct fs) /\ pc_align (TStruct fs) = align (TStruct fs) /\
+    py_enc e (TStruct fs) v = Ok (wire e (TStruct fs) v) /\
+    cpp_encode e (TStruct fs) v = wire e (TStruct fs) v.
+Proof.
+  intros e fs v Ha Hw. rewrite pc_accepts_legal in Ha.
+  destruct (pc_layout_eq (TStruct fs) Ha) as [Hs Hal].
+  split; [exact Hal|]. split; [exact Hs|]. split.
+  - apply py_enc_canonical; [reflexivity|exact Ha|exact Hw].
+  - unfold cpp_encode, wire.
+    destruct (cpp_lay_eq (TStruct fs) v 0 Ha Hw) as [H _]; [apply Z.mod_0_l; pose proof (align_ok (TStruct fs)) as Hk; apply okal_pos in Hk; lia|].
+    apply H.
+Qed.
+Print Assumptions C12_accepted_is_realisable.
+
+(* non-vacuity: one accepted schema and one rule breaker per rule family *)
+Example C12_examples :
+  let D := TStruct [(FPlain, TScalar U32); (FBound 0%nat, TScalar U8)] in          (* dynamic struct *)
+  let G := TStruct [(FGreedy, TScalar U8)] in                                      (* unlimited struct *)
+  pc_accepts (TStruct [(FPlain, TScalar U8); (FPlain, D); (FPlain, G)]) = true /\
+  pc_accepts (TStruct [(FPlain, G); (FPlain, TScalar U8)]) = false /\              (* unlimited not last *)
+  pc_accepts (TStruct [(FFixed 2, D)]) = false /\                                  (* dynamic in fixed array *)
+  pc_accepts (TStruct [(FPlain, TScalar U32); (FBound 0%nat, G)]) = false /\       (* unlimited in array *)
+  pc_accepts (TStruct [(FOpt, D)]) = false /\                                      (* dynamic optional *)
+  pc_accepts (TUnion [(1, D)]) = false /\                                          (* dynamic arm *)
+  pc_accepts (TStruct [(FBound 1%nat, TScalar U8); (FPlain, TScalar U32)]) = false /\   (* sizer after array *)
+  pc_accepts (TStruct [(FOpt, TScalar U32); (FBound 0%nat, TScalar U8)]) = false /\     (* optional sizer *)
+  pc_accepts (TStruct [(FPlain, TScalar R32); (FBound 0%nat, TScalar U8)]) = false /\   (* float sizer *)
+  pc_accepts (TUnion [(1, TScalar U8); (1, TScalar U16)]) = false /\               (* duplicate discriminator *)
+  pc_accepts (TStruct [(FFixed 0, TScalar U8)]) = false /\                         (* array size 0 *)
+  pc_accepts (TEnum [1; 2 ^ 32]) = false /\ pc_accepts (TUnion [(2 ^ 32, TScalar U8)]) = false.
+Proof. vm_compute. repeat split; reflexivity. Qed.
